@@ -162,10 +162,23 @@ class Judge:
         ad = e3.adaptor_for(p)
         cap = 256 if ctx.tier == "quick" else 1024
         n = 0
-        for val in values.enumerate_values(p.node, env, cap=cap):
+        first = []
+
+        def all_values():
+            for val in values.enumerate_values(p.node, env, cap=cap):
+                yield val
+            # items measured by a length field, at the longest and shortest length that field can carry
+            for base in first[:1]:
+                for _label, val in values.boundary_values(p.node, env, base, short_too=info.ident.startswith("corpus:")):
+                    ctx.counts["length_boundary_values"] += 1
+                    yield val
+
+        for val in all_values():
             if in_domain(env, p.node, val) is None:
                 ctx.counts["excluded_by_reference"] += 1
                 continue
+            if not first:
+                first.append(val)
             n += 1
             ctx.counts["evaluations"] += 1
             what = roundtrip(ld, ad, val)
@@ -192,6 +205,7 @@ def run(tier, seed):
         "programs_with_in_domain_values": counts["programs_with_values"],
         "excluded_by_reference": counts["excluded_by_reference"],
         "not_loadable": counts["not_loadable"],
+        "length_boundary_values": counts["length_boundary_values"],
         "violations_total": counts["violations_total"],
         "exhaustive": True,
         "rule": "every M9-valid body of the tier grammar in its hosts + corpus (real generator), every value of the domain "
